@@ -74,7 +74,7 @@ def _composite_gl(f, a, b, n):
     return total, absint
 
 
-def gibbs_duhem_integral(lng, x, h):
+def gibbs_duhem_integral(lng, x, h, noise=(0.0, 0.0)):
     """Gibbs-Duhem in integral form on [x-h, x+h]:
            [x1 ln g1 + x2 ln g2]_(x-h)^(x+h)  =  integral (ln g1 - ln g2) dx1
     (equivalent to x1 dln g1 + x2 dln g2 = 0; integration, unlike differentiation, does not amplify round-off).
@@ -94,7 +94,8 @@ def gibbs_duhem_integral(lng, x, h):
         cur, absint = _composite_gl(f, a, b, n)
         if prev is not None:
             e = abs(cur - prev)
-            if e <= 1e-13 * absint + 1e-300:
+            # converged to the level the integrand's own evaluation noise allows
+            if e <= 1e-13 * absint + 2 * (b - a) * (noise[0] + noise[1]) + 1e-300:
                 scale = max(abs(dG1), abs(dG2), absint)
                 return (dG1 + dG2) - cur, e, scale
         prev = cur
@@ -139,10 +140,10 @@ def pinned_formula_mismatch(mix, T, x, h):
         return math.log(g[0]), math.log(g[1])
 
     try:
-        r = gibbs_duhem_integral(lng, x, h)
+        noise = evaluation_noise(lng, x, h, lng(x))
+        r = gibbs_duhem_integral(lng, x, h, noise)
         if r is None:
             return None
-        noise = evaluation_noise(lng, x, h, lng(x))
     except (OverflowError, ValueError, ZeroDivisionError):
         return None
     mismatch, qerr, scale = r
@@ -248,14 +249,10 @@ def _one(rep, case, mix, model, T, x, zero, gam, Composition, CompositionType, g
         seen[x] = g0
         l0 = lng(x)
         d, derr = ridders(lng, x, h)  # only to express the sensitivity of the integral test and for the basis check
-        res = gibbs_duhem_integral(lng, x, h)
-    except _NonFinite:
-        rep.count("skipped_nonfinite_gamma")
-        return
-    # evaluation noise of ln(gamma): ln is recovered from gamma ~ 1 + tiny near the ends, and the UNIQUAC
-    # expression cancels large terms
-    try:
+        # evaluation noise of ln(gamma): ln is recovered from gamma ~ 1 + tiny near the ends, and the UNIQUAC
+        # expression cancels large terms
         noise = evaluation_noise(lng, x, h, l0)
+        res = gibbs_duhem_integral(lng, x, h, noise)
     except _NonFinite:
         rep.count("skipped_nonfinite_gamma")
         return
@@ -319,6 +316,9 @@ def _one(rep, case, mix, model, T, x, zero, gam, Composition, CompositionType, g
     ps1 = mix.first_component.get_vapor_pressure(T)
     ps2 = mix.second_component.get_vapor_pressure(T)
     ref = (ps1 * g0[0] * x, ps2 * g0[1] * (1 - x))
+    if not all(math.isfinite(float(v)) for v in tuple(pp) + ref):
+        rep.count("skipped_partial_pressure_out_of_float_range")
+        return
     for i in (0, 1):
         rep.check("p_i = x_i * gamma_i * Psat_i", abs(float(pp[i]) - ref[i]), 4 * EPS * abs(ref[i]), dict(case, i=i), {"got": float(pp[i]), "ref": ref[i]})
     # basis independence: the equivalent mass fraction as input
